@@ -525,6 +525,7 @@ type Case struct {
 	Scheds map[string][]int `json:"scheds"` // several schedules; a negative first element = deliver EOF with the last data
 	Cuts   []int  `json:"cuts"`
 	Vals   []any  `json:"vals"`   // c09: value trees
+	Transcode string `json:"transcode"` // "", "all", "odd", "even", "thirds": re-write the records read back with CopyFrom
 	Written bool  `json:"written"` // c09: every value lives in its own writer's Record and was written once (encoder caches populated)
 	Freeze bool   `json:"freeze"`
 }
@@ -560,6 +561,78 @@ type Out struct {
 	Steps   []StepOut   `json:"steps,omitempty"`
 	C09     *C09Out     `json:"c09,omitempty"`
 	Scheds  map[string]*ReadOut `json:"scheds,omitempty"`
+	Trans   *TransOut   `json:"trans,omitempty"`
+}
+
+// TransOut: the records of the stream read back and handed, by CopyFrom from the reader's record
+// (whose dictionary values are frozen and shared with the reader's dictionaries), to a second writer
+type TransOut struct {
+	Expected []string `json:"expected"` // dumps of the reader's record for every selected record
+	Got      []string `json:"got"`      // what a reader of the second stream returns
+	Err      string   `json:"err,omitempty"`
+	Panic    string   `json:"panic,omitempty"`
+	Stream   string   `json:"stream"`
+}
+
+func (e *Env) transcode(c *Case, stream []byte) (t *TransOut) {
+	t = &TransOut{}
+	defer func() {
+		if r := recover(); r != nil {
+			t.Panic = fmt.Sprint(r) + " @ " + shortStack()
+		}
+	}()
+	rd, err := e.Roots[c.Root].NewReader(bytes.NewReader(stream))
+	if err != nil {
+		t.Err = "open:" + err.Error()
+		return t
+	}
+	rv := reflect.ValueOf(rd)
+	rrec := rv.Elem().FieldByName("Record").Addr()
+	sink := &ChunkSink{}
+	o2 := c.Opts
+	o2.Schema = nil
+	w2, err := e.Roots[c.Root].NewWriter(sink, e.writerOpts(&o2))
+	if err != nil {
+		t.Err = "writer:" + err.Error()
+		return t
+	}
+	wv := reflect.ValueOf(w2)
+	wrec := wv.Elem().FieldByName("Record").Addr()
+	for i := 0; ; i++ {
+		res := call(rv, "Read", pkg.ReadOptions{})
+		if !res[0].IsNil() {
+			if res[0].Interface().(error) != io.EOF {
+				t.Err = "read:" + res[0].Interface().(error).Error()
+			}
+			break
+		}
+		sel := c.Transcode == "all" || (c.Transcode == "odd" && i%2 == 1) || (c.Transcode == "even" && i%2 == 0) || (c.Transcode == "thirds" && i%3 != 1)
+		if !sel {
+			continue
+		}
+		t.Expected = append(t.Expected, e.DumpRoot(c.Root, rrec))
+		call(wrec, "CopyFrom", rrec)
+		if err := call(wv, "Write")[0]; !err.IsNil() {
+			t.Err = "write:" + err.Interface().(error).Error()
+			return t
+		}
+	}
+	if err := call(wv, "Flush")[0]; !err.IsNil() {
+		t.Err = "flush:" + err.Interface().(error).Error()
+		return t
+	}
+	t.Stream = hex.EncodeToString(sink.All)
+	ro := e.ReadAll(c.Root, bytes.NewReader(sink.All))
+	for _, r := range ro.Recs {
+		if i := strings.LastIndex(r, "~"); i >= 0 {
+			r = r[:i]
+		}
+		t.Got = append(t.Got, r)
+	}
+	if ro.Err != "eof" || ro.OpenErr != "" || ro.Panic != "" {
+		t.Err = fmt.Sprintf("reread: open=%s err=%s panic=%s", ro.OpenErr, ro.Err, ro.Panic)
+	}
+	return t
 }
 
 func (e *Env) writerOpts(o *Opts) pkg.WriterOptions {
@@ -1166,6 +1239,9 @@ func (e *Env) RunCase(c *Case) (out *Out) {
 		src = &schedReader{b: append([]byte{}, stream...), sched: c.Sched}
 	}
 	out.Read = e.ReadAll(c.Root, src)
+	if c.Transcode != "" && len(stream) > 0 {
+		out.Trans = e.transcode(c, stream)
+	}
 	if len(c.Scheds) > 0 {
 		out.Scheds = map[string]*ReadOut{}
 		for name, sc := range c.Scheds {
